@@ -165,7 +165,15 @@ def run_case(case):
                         r['v'] = D(str(r['v']))
             sf[2]['constraints'] = {'required': True}
             label += '/required_source_field'
-        if mode == 'dedup':
+        if mode != 'dedup' and boot.rng(case['seed'], 'C02', 'rownum', case['idx']).random() < 0.2:
+            # positional join: the row number '#' as key (format string or field list); with full-outer and a source that
+            # is longer than the target the extra source rows become target rows
+            keyform = rng.choice(['{#}', ['#']])
+            mk = lambda e: [lab.source('src', sf, src), lab.source('tgt', tf, tgt),           # noqa: E731
+                            d.join('src', copy.deepcopy(keyform), 'tgt', copy.deepcopy(keyform),
+                                   {'o': {'name': 'v', 'aggregate': agg}}, mode=mode)]
+            label += '/row_number_key'
+        elif mode == 'dedup':
             mk = lambda e: [lab.source('src', sf, src),                                        # noqa: E731
                             d.join_with_self('src', ['k'], {'k': None, 'o': {'name': 'v', 'aggregate': agg}})]
         else:
@@ -175,7 +183,8 @@ def run_case(case):
     elif fam == 'matrix_misc':
         kind = rng.choice(['concatenate', 'unpivot', 'set_type', 'find_replace', 'duplicate_alias', 'load_csv',
                            'twin_isolation', 'twin_isolation', 'rename_chain', 'multi_then_single',
-                           'multi_then_single', 'pk_then_field_op', 'load_package_extract_missing'])
+                           'multi_then_single', 'pk_then_field_op', 'load_package_extract_missing',
+                           'set_type_two_positions'])
         if kind == 'concatenate' and rng.random() < 0.4:
             # a required field that only ONE of the concatenated resources has
             a = [{'id': i, 'v': 'x%d' % i} for i in range(3)]
@@ -196,6 +205,20 @@ def run_case(case):
             mk = lambda e: [lab.source('a', fa, a), lab.source('b', fb, b),                    # noqa: E731
                             d.concatenate({'id': [], 'v': ['w'], 'extra': []}, target={'name': 'c', 'path': 'c.csv'})]
             label = 'concatenate/' + ftyp
+        elif kind == 'set_type_two_positions':
+            # ONE set_type object (default resources = the last one) used after each of two sources
+            ftyp, vals = rng.choice([('integer', ['1', '22']), ('number', ['1.5', '2']), ('date', ['2020-01-31'])])
+            # (rows whose value does not conform are dropped by the step's policy: they must not come out)
+            a = [{'id': i, 'v': rng.choice(vals + [None, 'n/a'])} for i in range(5)] + [{'id': 5, 'v': 'n/a'}]
+            b = [{'id': 10 + i, 'v': rng.choice(vals + [None, 'n/a'])} for i in range(3)]
+            fl = [{'name': 'id', 'type': 'integer'}, {'name': 'v', 'type': 'string'}]
+
+            drop_ = d.schema_validator.drop
+
+            def mk(e):
+                one = d.set_type('v', type=ftyp, on_error=drop_)
+                return [lab.source('a', fl, a), one, lab.source('b', fl, b), one]
+            label = 'set_type_two_positions/' + ftyp
         elif kind == 'unpivot':
             ftyp = rng.choice(['integer', 'number', 'string', 'date', 'boolean'])
             rows = typed_table(rng, [('c1', ftyp), ('c2', ftyp)], 5)
